@@ -67,8 +67,13 @@ cls(
         "reader": [("HTTPStream.rely[reader].not-started", "implies(not old(self.g_app_started), not self.g_app_started and self.state == old(self.state) and self.closed == old(self.closed) "
                     "and self.g_n_end == old(self.g_n_end) and self.g_n_final == old(self.g_n_final) and self.g_access == old(self.g_access) and self.g_disc == old(self.g_disc) and self.g_spawned == old(self.g_spawned))", "C03")],
         # while the application task is suspended nobody else advances the response automaton
-        "app": [("HTTPStream.rely[app].automaton", "implies(old(self.g_app_started), self.state == old(self.state) and self.g_n_end == old(self.g_n_end) and self.g_n_final == old(self.g_n_final) and iff(has(self, 'response'), has(old(self), 'response')))", "C02")],
+        "app": [("HTTPStream.rely[app].automaton", "implies(old(self.g_app_started), self.state == old(self.state) and self.g_n_end == old(self.g_n_end) and self.g_n_final == old(self.g_n_final) and iff(has(self, 'response'), has(old(self), 'response')) "
+                 "and implies(has(old(self), 'response'), value_of(self, 'response') is value_of(old(self), 'response')) "
+                 "and value_of(self, 'scope') == value_of(old(self), 'scope'))", "C02")],
     },
+    # once the application runs, only its own task assigns response (scope/start_time are not
+    # assigned again at all); the clause above is what the other task proves about it
+    task_stable={"app": ["response", "scope", "start_time"]},
     # a stream that a protocol holds has been given its Request
     published_inv=[("HTTPStream.published.requested", "has(self, 'scope') and has(self, 'start_time')", "C04")],
     task_inv={
@@ -160,3 +165,13 @@ fn(HS + ".app_send", params={"message": "none | msg(headers:short;links:short)"}
        2: {"locals": {"name": "bstr", "value": "bstr", "headers": "hdrs"}, "invariant": [("app_send.loop.unchanged", "self.g_app_started and self.state == old(self.state) and self.closed == old(self.closed) and self.g_n_final == old(self.g_n_final) and self.g_n_end == old(self.g_n_end) and self.g_access == old(self.g_access) and self.g_disc == old(self.g_disc) and self.g_spawned == old(self.g_spawned) and has(self, 'scope') and has(self, 'start_time') and iff(has(self, 'response'), has(old(self), 'response'))")]},
    },
    props=("C02", "C03", "C05", "C12"))
+
+fn(HS + ".__init__",
+   params={"app": "opaque", "config": "obj hypercorn.config:Config", "context": "obj hypercorn.typing:WorkerContext", "task_group": "obj hypercorn.typing:TaskGroup",
+           "ssl": "bool", "client": "opaque", "server": "opaque", "send": "opaque", "stream_id": "int"},
+   ensures=[
+       ("C01.scheme", "self.scheme == ('https' if ssl else 'http')", "C01"),
+       ("HTTPStream.init.fresh", "not self.closed and self.state == ASGIHTTPState.REQUEST and self.stream_id == stream_id and not has(self, 'scope') and not has(self, 'response')", "C02"),
+       ("HTTPStream.init.addresses", "same(self.client, client) and same(self.server, server)", "C01"),
+   ],
+   props=("C01",))
